@@ -645,6 +645,18 @@ def suite_C12():
             exp = (t == ty) or t == 'anything' or (t == 'number' and ty in ('int', 'rational', 'float', 'complex')) or (t == 'func' and ty == 'type')
             cases.append(('i%d' % k, '%s is %s' % (v, t), str(int(exp)), dict(value=v, type=t)))
             k += 1
+    # a type annotation is checked at declaration (C12): `x: T := v` and `x: T = v` on a fresh name succeed exactly when v is a T
+    for v, ty in vals.items():
+        if ty is None:
+            continue
+        for t in types:
+            exp = (t == ty) or t == 'anything' or (t == 'number' and ty in ('int', 'rational', 'float', 'complex')) or (t == 'func' and ty == 'type')
+            for op in ('=',):
+                cases.append(('d%d' % k, '(\\ -> (vx: %s %s %s; "declared"))()' % (t, op, v), 'declared' if exp else 'ERR', dict(value=v, type=t, form=op, what='annotation checked at declaration')))
+                k += 1
+    for t, v, exp in [('VerifFoo', 'veriffoo', 'declared'), ('VerifBar', 'veriffoo', 'ERR'), ('VerifFoo', '3', 'ERR'), ('VerifBar', 'VerifBar(1)', 'declared')]:
+        cases.append(('ds%d' % k, '(\\ -> (vx: %s = %s; "declared"))()' % (t, v), exp, dict(value=v, type=t, what='struct annotation checked at declaration')))
+        k += 1
     # a type annotation is enforced by every later assignment form (C12): the program must raise
     for decl, stmt in [('n: int = 7', 'n = 1/2'), ('n: int = 7', 'n /= 2'), ('n: int = 7', 'n += 0.5'), ('xs: list = [1, 2]', 'xs = "s"'),
                        ('xs: list = [1, 2]', 'xs join= ","'), ('q: rational = 1/2', 'q = 1'), ('s: str = "a"', 's = 1'), ('n: number = 1', 'n = "x"')]:
